@@ -295,8 +295,8 @@ class Session:
         raise KeyError(task)
 
     # ---- external events ----------------------------------------------------------------------------
-    def connect(self, addr):
-        self.d.connect(addr)
+    def connect(self, addr, peer=None):
+        self.d.connect(addr, peer)
         self.conn_order.append(addr)
         # remember the address for the label of the (possibly already finished) task
         self.trace.append((f"LConnect {self.aid(addr)}%N", self.ser()))
@@ -348,7 +348,7 @@ class Session:
             if not desc.get("info", True):
                 return "(CMsg (MJoin None))"
             role = desc["role"]
-            r = {"Attacker": "RAttacker", "Defender": "RDefender", "Benign": "RBenign"}.get(role)
+            r = {"Attacker": "RAttacker", "Defender": "RDefender", "Benign": "RBenign"}.get(role) if isinstance(role, str) else None
             return f"(CMsg (MJoin (Some ({self.name_id(desc['name'])}%N, {('Some ' + r) if r else 'None'}))))"
         if k == "quit":
             return "(CMsg MQuit)"
